@@ -403,13 +403,19 @@ func (e *Engine) solve(o *Oblig, dir string, idx int, timeoutS int, crossCheck b
 	if timeoutS < fast {
 		fast = timeoutS
 	}
-	r := runSolver(context.Background(), solvers[0], fileL, fast)
+	var r solveResult
+	if o.fastTried && !e.phaseFast && !fastOnly {
+		r = solveResult{status: "unknown", solver: solvers[0].name} // phase 2: the fast path already ran in phase 1
+	} else {
+		r = runSolver(context.Background(), solvers[0], fileL, fast)
+		o.fastTried = true
+	}
 	if r.status == "unsat" && !crossCheck {
 		o.status, o.solver, o.secs = "unsat", r.solver, time.Since(t0).Seconds()
 		return
 	}
-	if fastOnly {
-		// sweep mode: one solver, one short run; anything but a definite answer is dropped by the caller
+	if fastOnly || e.phaseFast {
+		// sweep mode / first phase of solveAll: one solver, one short run
 		o.status, o.solver, o.secs = r.status, r.solver, time.Since(t0).Seconds()
 		return
 	}
@@ -566,26 +572,51 @@ func solveAll(results []*FuncResult, dir string, timeoutS int, workers int, cros
 			idx++
 		}
 	}
-	var wg sync.WaitGroup
-	ch := make(chan job)
-	for w := 0; w < workers; w++ {
-		wg.Add(1)
-		go func() {
-			defer wg.Done()
-			for j := range ch {
-				to := timeoutS
-				if knownNames[j.o.name] && to > 6 {
-					to = 6 // a listed finding is expected to fail: do not spend the full budget on it
+	run := func(js []job, workers int, fast bool) {
+		var wg sync.WaitGroup
+		ch := make(chan job)
+		for w := 0; w < workers; w++ {
+			wg.Add(1)
+			go func() {
+				defer wg.Done()
+				for j := range ch {
+					to := timeoutS
+					if knownNames[j.o.name] && to > 6 {
+						to = 6 // a listed finding is expected to fail: do not spend the full budget on it
+					}
+					j.e.solve(j.o, dir, j.idx, to, crossCheck && j.o.kind != "cover")
 				}
-				j.e.solve(j.o, dir, j.idx, to, crossCheck && j.o.kind != "cover")
+			}()
+		}
+		for _, j := range js {
+			ch <- j
+		}
+		close(ch)
+		wg.Wait()
+	}
+	if crossCheck {
+		run(jobs, workers, false)
+	} else {
+		// phase 1: the fast path (newest z3 alone, 3 s) for everything, one solver process per core;
+		// phase 2: the full race (three solvers + slim variants, up to 13 processes each) only for what is left,
+		// a few at a time so that the racing solvers are not starved of CPU
+		for _, j := range jobs {
+			j.e.phaseFast = true
+		}
+		run(jobs, workers, true)
+		var rest []job
+		for _, j := range jobs {
+			j.e.phaseFast = false
+			if j.o.kind != "cover" && j.o.status != "unsat" {
+				rest = append(rest, j)
 			}
-		}()
+		}
+		w2 := workers / 5
+		if w2 < 2 {
+			w2 = 2
+		}
+		run(rest, w2, false)
 	}
-	for _, j := range jobs {
-		ch <- j
-	}
-	close(ch)
-	wg.Wait()
 	// second chance, one at a time (no CPU contention), for anything that timed out or came back unknown
 	for _, j := range jobs {
 		if j.o.kind == "cover" || j.o.status == "unsat" || j.o.status == "sat" || knownNames[j.o.name] {
